@@ -47,7 +47,8 @@ def check(repo, rep, tier):
         rp.r_callbacks(repo, rep, 'R2.5')
         rp.r_sentence_loop(repo, rep, 'R2.4', ti)
         rp.r_root_ids(repo, rep, 'R2.5', ti)
-    from .c11 import r_chunks, r_gather
+    from .c11 import r_chunks, r_gather, r_validation
+    r_validation(repo, rep, 'R2.2')        # a score column beyond the category list is a supertag id that stands for a root / derived category: the shapes are checked before any parsing
     r_chunks(repo, rep, 'R2.4')            # a tree is built from the tokens of its own sentence: the batch split neither skips nor repeats
     r_gather(repo, rep, 'R2.4')            # ... and the pieces come back in the order they were cut
     rep.floor('agenda push sites', len(m.sites), 5)
